@@ -8,6 +8,9 @@ REPO = os.environ.get('VERIF_REPO', '/repo')
 SPEC = f'{VERIF}/spec'
 JAR = '/opt/veriftools/tla/tla2tools.jar:/opt/veriftools/tla/CommunityModules-deps.jar'
 NCPU = int(os.environ.get('VERIF_NCPU', '16'))
+# side runs (selftest, seeded changes in a scratch worktree) get their own work and evidence directories
+TAG = os.environ.get('VERIF_WORKTAG', '')
+EVID = f'{VERIF}/evidence' if not TAG else f'{VERIF}/work/evidence.{TAG}'
 
 
 class Broken(Exception):
@@ -56,7 +59,7 @@ def driver(B, name, extra_src=(), extra_flags='', libs='-lm'):
 
 
 def workdir(pid):
-    d = f'{VERIF}/work/{pid}'
+    d = f'{VERIF}/work/{pid}' + (f'.{TAG}' if TAG else '')
     shutil.rmtree(d, ignore_errors=True)
     os.makedirs(d, exist_ok=True)
     return d
@@ -239,16 +242,16 @@ def classify(pid, badrecs, derive=None):
 # ---------------- evidence / verdict ----------------
 
 def write_evidence(pid, tier, seed, level, coverage, wall, violations, assumptions=()):
-    os.makedirs(f'{VERIF}/evidence', exist_ok=True)
+    os.makedirs(EVID, exist_ok=True)
     ev = {'property_id': pid, 'tier': tier, 'seed': int(seed), 'level': level, 'coverage': coverage,
           'assumptions': list(assumptions), 'wall_s': round(wall, 1), 'violations': int(violations)}
-    tmp = f'{VERIF}/evidence/{pid}.json.tmp'
+    tmp = f'{EVID}/{pid}.json.tmp'
     json.dump(ev, open(tmp, 'w'), indent=1, default=str)
-    os.replace(tmp, f'{VERIF}/evidence/{pid}.json')
+    os.replace(tmp, f'{EVID}/{pid}.json')
 
 
 def save_replay(pid, name, content):
-    d = f'{VERIF}/work/{pid}/replay'
+    d = f'{VERIF}/work/{pid}' + (f'.{TAG}' if TAG else '') + '/replay'
     os.makedirs(d, exist_ok=True)
     p = f'{d}/{name}'
     with open(p, 'w') as f:
